@@ -126,7 +126,8 @@ inductive DOut
 
 structure DecFrame where
   kind : PushKind
-  start : Nat
+  start : Nat          -- offset of the field
+  dataStart : Nat      -- offset after the field as it was read
   fieldLen : Int
 
 structure DecSt where
@@ -174,14 +175,14 @@ def decStep (s : DecSt) (t : DTok) : DecSt :=
         | none => s.fail
         | some (n, r) =>
           if n > r.length then s.fail
-          else { (s.advance r .ok) with stack := ⟨k, s.off, n⟩ :: s.stack })
+          else { (s.advance r .ok) with stack := ⟨k, s.off, s.off + 4, n⟩ :: s.stack })
      | .varlen =>
        (match getVarint s.rest with
         | none => s.fail
-        | some (n, r) => { (s.advance r .ok) with stack := ⟨k, s.off, n⟩ :: s.stack })
+        | some (n, r) => { (s.advance r .ok) with stack := ⟨k, s.off, s.raw.length - r.length, n⟩ :: s.stack })
      | .crc _ =>
        if s.rest.length < 4 then s.fail
-       else { s with off := s.off + 4, outs := .ok :: s.outs, stack := ⟨k, s.off, 0⟩ :: s.stack })
+       else { s with off := s.off + 4, outs := .ok :: s.outs, stack := ⟨k, s.off, s.off + 4, 0⟩ :: s.stack })
   | .pop =>
     match s.stack with
     | [] => s.fail
@@ -191,8 +192,8 @@ def decStep (s : DecSt) (t : DTok) : DecSt :=
         if ((s.off : Int) - f.start - 4) = f.fieldLen then { s with stack := st, outs := .ok :: s.outs }
         else { s.fail with stack := st }
       | .varlen =>
-        if ((s.off : Int) - f.start - (prepVarint f.fieldLen : Nat)) = f.fieldLen then
-          { s with stack := st, outs := .ok :: s.outs }
+        -- varintLengthField.check: curOffset − startOffset − (size of the varint as read) = length
+        if ((s.off : Int) - f.dataStart) = f.fieldLen then { s with stack := st, outs := .ok :: s.outs }
         else { s.fail with stack := st }
       | .crc p =>
         if crc32 p ((s.raw.drop (f.start + 4)).take (s.off - (f.start + 4))) = fromBE ((s.raw.drop f.start).take 4)
